@@ -148,6 +148,7 @@ def run(res, seam, shard, replay):
                     res.error(str(e))
                     return
                 except Exception as e:
+                    model.reraise_watchdog(e)
                     res.violation("build/exception/" + type(e).__name__,
                                   case, None, repr(e)[:200])
                     continue
